@@ -210,6 +210,25 @@ func (v *Verifier) solveOne(o *Obligation, dir string, timeoutS int) *SolveResul
 			if os.WriteFile(sfile, []byte(v.smtTextKeep(o, false, keep)), 0o644) == nil {
 				atts = append(atts, attempt{fmt.Sprintf("sliced(%d/%d)-%s", len(keep), o.N, solvers[0].name), solvers[0], sfile, true})
 			}
+			// a narrower slice (two relevance steps, rarest symbols only) for large functions
+			if len(keep) > 120 {
+				keep2 := o.Root.relevantAssumptions(o, 2, 1.0)
+				if len(keep2) < len(keep)*2/3 {
+					nfile := filepath.Join(dir, mangle(o.Name)+".narrow.smt2")
+					if os.WriteFile(nfile, []byte(v.smtTextKeep(o, false, keep2)), 0o644) == nil {
+						atts = append(atts, attempt{fmt.Sprintf("narrow(%d/%d)-%s", len(keep2), o.N, solvers[0].name), solvers[0], nfile, true})
+					}
+				}
+			}
+		}
+		if o.Root != nil {
+			if keep, ok := o.Root.coneAssumptions(o); ok {
+				cfile := filepath.Join(dir, mangle(o.Name)+".cone.smt2")
+				if os.WriteFile(cfile, []byte(v.smtTextKeep(o, false, keep)), 0o644) == nil {
+					atts = append(atts, attempt{fmt.Sprintf("cone(%d/%d)-%s", len(keep), o.N, solvers[0].name), solvers[0], cfile, true})
+					atts = append(atts, attempt{fmt.Sprintf("cone(%d/%d)-%s", len(keep), o.N, solvers[1].name), solvers[1], cfile, true})
+				}
+			}
 		}
 		for _, s := range solvers {
 			atts = append(atts, attempt{s.name, s, file, false})
